@@ -151,6 +151,7 @@ def run(chk, prog):
     patch_read_modify_write(chk, prog, tr)
     patch_consulted_first(chk, prog, tr)
     at_start_is_sticky(chk, prog, tr)
+    chosen_choice_is_an_offered_one(chk, prog, tr)
 
 
 def applies_patch_unless_saving(prog, tr, f, depth=0):
@@ -499,3 +500,41 @@ def patch_consulted_first(chk, prog, tr):
                            'the patch lookup comes first', '%s: %s (%s before %s): what the running look-ahead recorded '
                            'for the key is shadowed by the committed entry' % (root.short, bad, fld, gcs), bg.loc(bbk))
     chk.floor(R7, 'functions that look one key up in the patch and in the committed map', n, 5)
+
+
+def chosen_choice_is_an_offered_one(chk, prog, tr, rule='C01.chosen-choice-is-an-offered-one'):
+    """Seed C01-5 (and, earlier, C09-1): the choice that is played is the i-th of the list the host was shown."""
+    chk.rule(rule, 'The branch a choice index plays is the branch of the choice shown under that index: in '
+             'choose_choice_index both the thread that is restored and the path that is followed come from a choice taken '
+             'out of the list returned by the public accessor Story::get_current_choices (the offered choices), never out of '
+             'the raw per-flow list - that one also holds invisible default choices, which carry the same index as the next '
+             'visible choice, so a lookup there can play the fallback branch of a choice the player never saw.')
+    from analysis.facts import callee_short
+    cci = prog.fn('Story::choose_choice_index')
+    if not chk.anchor(rule, 'Story::choose_choice_index', cci):
+        return
+    uses = []
+    for g in prog.with_closures(cci):
+        for bb, t in g.calls():
+            cs = callee_short(t)
+            if cs == 'Story::choose_path' and len(t['args']) >= 2:
+                uses.append((g, bb, 'path followed', tr.prov(g, t['args'][1])))
+            elif cs == 'CallStack::set_current_thread' and len(t['args']) >= 2:
+                at = set(tr.prov(g, t['args'][1]))
+                # the thread comes from Choice::get_thread_at_generation(choice): follow the receiver
+                for bb2, t2 in g.calls():
+                    if callee_short(t2) == 'Choice::get_thread_at_generation' and t2['args']:
+                        at |= set(tr.prov(g, t2['args'][0]))
+                uses.append((g, bb, 'thread restored', at))
+    if not chk.anchor(rule, 'the path followed / the thread restored in choose_choice_index', uses):
+        return
+    chk.floor(rule, 'uses of the chosen choice', len(uses), 2)
+    for g, bb, what, at in uses:
+        offered = any('Story::get_current_choices' in a for a in at)
+        raw = sorted(a for a in at if 'StoryState::get_current_choices' in a or a in (
+            'field:Flow::current_choices', 'field:StoryState::current_flow') or 'Flow::current_choices' in a)
+        chk.decide(rule, chk.key(rule, what.replace(' ', '-')), offered and not raw,
+                   'comes from a choice of the offered list',
+                   'in choose_choice_index the %s does not come from the list the host was shown (Story::get_current_choices) '
+                   'but from %s: with an invisible default choice ahead of a visible one the index the player picked plays '
+                   'the fallback branch' % (what, raw or 'somewhere else'), g.loc(bb))
